@@ -88,8 +88,12 @@ CHECKS["C11"] = ("exploration",
     "degree clause, pointwise agreement, dft = values at roots of unity, idft round trip.",
     TRUST, "DESIGN.md §4 C11")
 CHECKS["C12"] = ("exploration",
-    "TLC constructs dividends exactly as q*d+r; the harness divides; TLC (Val_C12) checks reconstruction, remainder degree and (q, r)",
-    "Exhaustive in small scope with exact expected quotient and remainder, seeded shapes with the backward-error bound of the statement.",
+    "TLC model-checks the design model of Polynomial::divide (PolyDivide over exact rationals: Euclidean identity up to the tolerance after "
+    "every pass, remainder degree, bound on the passes, termination - zero tolerance included); TLC constructs dividends exactly as q*d+r, the "
+    "harness divides under a deadline, TLC (Val_C12) checks reconstruction, remainder degree and (q, r), and replays every call through the "
+    "design model over doubles bit for bit (Trace_PolyDivide)",
+    "Exhaustive in small scope with exact expected quotient and remainder (each third case again at a zero tolerance), seeded shapes with the "
+    "backward-error bound of the statement over tolerances 0, 1e-14, 1e-10, 1e-6; the design model is exhaustive over small rational inputs.",
     TRUST, "DESIGN.md §4 C12")
 CHECKS["C13"] = ("model_checking",
     "TLC explores the coefficient-editing state machine (MC_Poly) and enumerates all histories in scope, replayed on the real Polynomial and "
@@ -122,7 +126,7 @@ CHECKS["C10"] = ("exploration",
     "the shipped tables are compiled from the working tree and every row is checked by TLC (QuadTables): expansion count, domain, "
     "positivity, all moments 0..2n-1 against closed forms, tanh-sinh pairs against the double-exponential formula",
     "Exhaustive over the finite data (251 Gaussian rows, 7 tanh-sinh levels, ~11,000 pairs).",
-    TRUST + " Moments to relative 2e-10 (precision of the shipped digits on the largest rows).", "DESIGN.md §4 C10")
+    TRUST + " Moments to relative 1e-12 (Legendre, Chebyshev) / 2e-10 (Hermite, Laguerre: precision of the shipped digits on the largest rows).", "DESIGN.md §4 C10")
 CHECKS["C14"] = ("exploration",
     "polynomials built from known separated roots (lattice + seeded) and orthogonal-polynomial zeros; TLC (Val_C14, PolyRoots/OrthoPoly) checks "
     "count, residuals, one-to-one matching with the generating roots, and sign-change brackets of the exact polynomials",
@@ -131,7 +135,8 @@ CHECKS["C14"] = ("exploration",
     TRUST, "DESIGN.md §4 C14")
 CHECKS["C16"] = ("exploration",
     "splines on lattice and seeded knots probed on both sides of every knot and inside every piece; TLC (Val_C16, Spline) checks the "
-    "characterisation of the unique free/clamped spline (interpolation, C1, C2 via Hermite data, end conditions, reproduction, error cases)",
+    "characterisation of the unique free/clamped spline (interpolation, C1, C2 via Hermite data, end conditions, reproduction, error cases); "
+    "the design model of the constructors' sweeps (SplineSweep over exact rationals) is model-checked against the same conjuncts",
     "By the uniqueness theorem the characterisation is equivalent to coinciding with the independently defined spline; it is evaluated by "
     "TLC on every recorded spline.",
     TRUST, "DESIGN.md §4 C16")
